@@ -62,3 +62,15 @@ check("C20", "fault_enumeration",
       [native("thorough"), miri(shards=4)],
       minima={"feeds_known_peer": 5000, "pending_peers_created": 200, "accepts": 100, "rejects": 20, "remote_closes": 50,
               "net_disconnects": 50, "garbage_fed": 500, "outgoing_connects": 100, "histories_non_accepting": 50, "net_ticks": 500})
+
+check("C05", "exploration",
+      [native("quick")],
+      [native("thorough"), miri(shards=4)],
+      minima={"v6_chunks_compressed": 100, "v6_chunks_uncompressed": 100, "v7_chunks_compressed": 100, "v7_chunks_uncompressed": 100,
+              "header_patterns": {"quick": 1 << 20, "thorough": 1 << 26}})
+
+check("C06", "exploration",
+      [native("quick")],
+      [native("thorough"), miri(shards=8)],
+      minima={"exhaustive_strings": {"quick": 1 << 20, "thorough": 1 << 24}, "mutants_accepted": 1000, "errors_v6": 7, "errors_v7": 8,
+              "bomb[huffman-bomb]": 100, "chunks_iterated": 10000})
